@@ -147,11 +147,13 @@ def Attr.pfxCooked (a : Attr) : List Tok :=
   | .none => []
   | p => [⟨.nsPrefix, p.str ++ [124]⟩]
 
+def Attr.opvToks (a : Attr) : List Tok :=
+  match a.opv with
+  | none => []
+  | some (o, f3, v, f4) => [o.tok] ++ f3.map Fill.tok ++ [v.tok] ++ f4.map Fill.tok
+
 def Attr.tail (a : Attr) : List Tok :=
-  [⟨.ident, a.name⟩] ++ a.f2.map Fill.tok ++
-  (match a.opv with
-   | none => []
-   | some (o, f3, v, f4) => [o.tok] ++ f3.map Fill.tok ++ [v.tok] ++ f4.map Fill.tok) ++ [⟨.char, [93]⟩]
+  [⟨.ident, a.name⟩] ++ a.f2.map Fill.tok ++ a.opvToks ++ [⟨.char, [93]⟩]
 
 def Attr.raw (a : Attr) : List Tok := [⟨.char, [91]⟩] ++ a.f1.map Fill.tok ++ a.pfx.raw ++ a.tail
 def Attr.cooked (a : Attr) : List Tok := [⟨.char, [91]⟩] ++ a.f1.map Fill.tok ++ a.pfxCooked ++ a.tail
